@@ -2692,7 +2692,8 @@ func (m *Msg) hasAlt() bool {
 // References:
 //   - https://datatracker.ietf.org/doc/html/rfc2046#section-5.1.3
 func (m *Msg) hasMixed() bool {
-	return m.pgptype == 0 && ((len(m.parts) > 0 && len(m.attachments) > 0) || len(m.attachments) > 1)
+	return m.pgptype == 0 && (((len(m.parts) > 0 || len(m.embeds) > 0) && len(m.attachments) > 0) ||
+		len(m.attachments) > 1)
 }
 
 // hasSMIME determines if the Msg should be signed with S/MIME.
